@@ -637,6 +637,11 @@ func TestC08DecodeRandom(t *testing.T) {
 		case 1: // number-like
 			v = rapid.SampledFrom([]string{"", "-", "+", "--"}).Draw(t, "sign")
 			n := rapid.IntRange(1, 8).Draw(t, "len")
+			if rapid.IntRange(0, 4).Draw(t, "wide") == 0 {
+				// digit runs around and beyond the width of a 64-bit integer
+				v += rapid.SampledFrom([]string{"922337203685477580", "1844674407370955161", "99999999999999999", "1000000000000000000"}).Draw(t, "stem")
+				n = rapid.IntRange(1, 4).Draw(t, "taillen")
+			}
 			for i := 0; i < n; i++ {
 				v += rapid.SampledFrom([]string{"0", "1", "9", ".", "e", "E", "-", "+", "_", "x", "p", "f", "L", " "}).Draw(t, "nsym")
 			}
@@ -729,6 +734,11 @@ var regressDec = []DecCase{
 	{V: `"a" + "b"`, Pre: " ", Mid: " "},
 	{V: `"a"+"b"`, Pre: "", Mid: ""},
 	{V: `"x" == "y"`, Pre: " ", Mid: " ", AES: true},
+	// integers at and beyond the ends of the 64-bit range, very long digit runs, reals beyond the double range
+	{V: "9223372036854775807", Pre: " ", Mid: " "}, {V: "9223372036854775808", Pre: " ", Mid: " "}, {V: "-9223372036854775808", Pre: " ", Mid: " ", AES: true},
+	{V: "-9223372036854775809", Pre: " ", Mid: " "}, {V: "18446744073709551615", Pre: " ", Mid: " ", AES: true}, {V: "123456789012345678901234567890", Pre: " ", Mid: " "},
+	{V: "99999999999999999999", Pre: "", Mid: "", Post: " "}, {V: "1e400", Pre: " ", Mid: " "}, {V: "-1e400", Pre: " ", Mid: " "}, {V: "0.000000000000000000000000000000000001", Pre: " ", Mid: " "},
+	{V: "9223372036854775807.0", Pre: " ", Mid: " "}, {V: "09223372036854775808", Pre: " ", Mid: " "},
 }
 
 // FuzzC08ValueText: coverage-guided search over value texts (thorough tier).
